@@ -3,6 +3,8 @@ package drive
 import (
 	"errors"
 	"fmt"
+	"os"
+	"path/filepath"
 	"sort"
 	"strconv"
 	"strings"
@@ -107,6 +109,8 @@ func (o cop) String() string {
 		return fmt.Sprintf("FindById(%s)", short(o.IDs[0]))
 	case "countgroup":
 		return fmt.Sprintf("Count(g==%d)", o.G)
+	case "countlike":
+		return fmt.Sprintf("Count(tag like ^%s)", o.Tag)
 	}
 	return o.Kind
 }
@@ -254,6 +258,14 @@ func cstep(state, input, output interface{}) (bool, interface{}) {
 			}
 		}
 		return out.Class == OK && out.Snap == strconv.Itoa(n), st
+	case "countlike":
+		n := 0
+		for _, d := range s.docs {
+			if strings.HasPrefix(d.tag, in.Tag) {
+				n++
+			}
+		}
+		return out.Class == OK && out.Snap == strconv.Itoa(n), st
 	case "findbyid":
 		d, ok := s.docs[in.IDs[0]]
 		if !ok {
@@ -301,6 +313,18 @@ type concRun struct {
 	cBase  query.Criteria // shared on purpose
 	invErr atomic.Value
 	nConflicts int64
+	hotIDs []string // a few caller-supplied ids several clients try to insert
+}
+
+func regexpQuote(s string) string {
+	var b strings.Builder
+	for _, ch := range s {
+		if strings.ContainsRune(`\.+*?()|[]{}^$`, ch) {
+			b.WriteByte('\\')
+		}
+		b.WriteRune(ch)
+	}
+	return b.String()
 }
 
 func (cr *concRun) tick() int64 { return atomic.AddInt64(&cr.clock, 1) }
@@ -403,7 +427,7 @@ func (cr *concRun) client(id int, r *gen.Rng, nops int, groups int64, wg *sync.W
 		core.Tick()
 		var in cop
 		var out cout
-		switch r.Weighted([]int{18, 8, 6, 5, 10, 4, 3, 2, 18, 6, 8, 3, 5, 12}) {
+		switch r.Weighted([]int{18, 8, 6, 5, 10, 4, 3, 2, 18, 6, 8, 3, 5, 12, 6, 6}) {
 		case 0: // insert batch
 			n := r.Range(1, 5)
 			if r.P(35) {
@@ -604,6 +628,37 @@ func (cr *concRun) client(id int, r *gen.Rng, nops int, groups int64, wg *sync.W
 			cr.record(id, in, call, out)
 			cr.after(err, in)
 			continue
+		case 14: // a regular expression nobody has used before in this process (criteria evaluation shares no state... or should not)
+			pfx := fmt.Sprintf("c%d-", r.Intn(8))
+			if k, ok := cr.pickKnown(r, false); ok && r.Bool() {
+				pfx = k.tag[:strings.LastIndex(k.tag, "-n")]
+			}
+			in = cop{Kind: "countlike", Tag: pfx}
+			var n int
+			// the pattern text is unique (an always-true alternative carrying a fresh number) so that it has never been compiled
+			pat := fmt.Sprintf("^%s|^never-%d-%d$", regexpQuote(pfx), id, cr.nextVal())
+			q := cr.qBase.Where(query.Field("tag").Like(pat))
+			call := cr.tick()
+			err := Do(func() (e error) { n, e = db.Count(q); return })
+			out = cout{Class: classifyConc(err), Snap: strconv.Itoa(n)}
+			cr.record(id, in, call, out)
+			cr.after(err, in)
+			continue
+		case 15: // insert of ONE document under a contended, caller-supplied id
+			uid := cr.hotIDs[r.Intn(len(cr.hotIDs))]
+			seq++
+			in = cop{Kind: "insert", IDs: []string{uid}, G: int64(r.Intn(int(groups))), Val: cr.nextVal(), Tag: fmt.Sprintf("c%d-%d-n1", id, seq)}
+			call := cr.tick()
+			err := Do(func() error { return db.Insert("k", mkConcDoc(uid, cdoc{g: in.G, p: in.Val, b: -1, tag: in.Tag})) })
+			out = cout{Class: classifyConc(err)}
+			cr.record(id, in, call, out)
+			if err == nil {
+				cr.mu.Lock()
+				cr.known = append(cr.known, idInfo{uid, in.G, in.Tag, true})
+				cr.mu.Unlock()
+			}
+			cr.after(err, in)
+			continue
 		default: // count of a group through criteria (index plan when g is indexed)
 			in = cop{Kind: "countgroup", G: int64(r.Intn(int(groups)))}
 			var n int
@@ -646,6 +701,9 @@ func RunConc(c *core.Ctx) {
 		h.MS.SetPerturb(mon.Perturb{On: true, Seed: r.U64(), Pct: gen.Pick(r, []int{10, 30, 60})})
 	}
 	cr := &concRun{c: c, h: h, qBase: query.NewQuery("k"), cBase: query.Field("g").GtEq(int64(0))}
+	for i := 0; i < 3; i++ {
+		cr.hotIDs = append(cr.hotIDs, r.UUID())
+	}
 	nclients := r.Range(2, 8)
 	nops := r.Range(6, 14)
 	groups := int64(r.Range(1, 3))
@@ -795,14 +853,32 @@ func RunConcCatalog(c *core.Ctx) {
 	var inserted int64
 	var idxCreated int64
 	var panicMsg atomic.Value
+	dirSeq++
+	impDir := filepath.Join(c.Scratch, fmt.Sprintf("cat%d", dirSeq))
+	os.MkdirAll(impDir, 0755)
+	defer os.RemoveAll(impDir)
 	for i := 0; i < n; i++ {
 		wg.Add(1)
 		rr := r.Fork()
+		// some clients create the collection by importing a file of three documents
+		importFile := ""
+		if rr.P(40) {
+			importFile = filepath.Join(impDir, fmt.Sprintf("imp%d.json", i))
+			os.WriteFile(importFile, []byte(fmt.Sprintf(`[{"_id":"%s","a":1},{"_id":"%s","a":2},{"_id":"%s","a":3}]`, rr.UUID(), rr.UUID(), rr.UUID())), 0644)
+		}
 		go func() {
 			defer wg.Done()
 			for attempt := 0; attempt < 3; attempt++ {
 				core.Tick()
-				err := Do(func() error { return h.DB.CreateCollection(name) })
+				err := Do(func() error {
+					if importFile != "" {
+						return h.DB.ImportCollection(name, importFile)
+					}
+					return h.DB.CreateCollection(name)
+				})
+				if err == nil && importFile != "" {
+					atomic.AddInt64(&inserted, 3)
+				}
 				cls := classifyConc(err)
 				if pe, ok := IsPanic(err); ok {
 					panicMsg.Store(fmt.Sprintf("%v\n%s", pe.Val, trim(pe.Stack, 20)))
